@@ -90,39 +90,51 @@ func read[EntityT entity.Interface](def Definition, wrapper func(e *Entity) Enti
 		return *new(EntityT), err
 	}
 
-	// Perform a breadth-first search to get a topological order of the DAG where we discover the
-	// parents commit and go back in time up to the chronological root
+	// Perform a depth-first search to get a topological order of the DAG: a commit is only
+	// emitted once all its parents (and so all its chronological ancestors) have been emitted.
+	// Note: a breadth-first discovery order, even reversed, is NOT a topological order as soon
+	// as two branches have different lengths.
 
-	queue := make([]repository.Hash, 0, 32)
 	visited := make(map[repository.Hash]struct{})
-	BFSOrder := make([]repository.Commit, 0, 32)
+	topoOrder := make([]repository.Commit, 0, 32)
 
-	queue = append(queue, rootHash)
-	visited[rootHash] = struct{}{}
-
-	for len(queue) > 0 {
-		// pop
-		hash := queue[0]
-		queue = queue[1:]
-
-		commit, err := repo.ReadCommit(hash)
-		if err != nil {
-			return *new(EntityT), err
-		}
-
-		BFSOrder = append(BFSOrder, commit)
-
-		for _, parent := range commit.Parents {
-			if _, ok := visited[parent]; !ok {
-				queue = append(queue, parent)
-				// mark as visited
-				visited[parent] = struct{}{}
-			}
-		}
+	type frame struct {
+		commit repository.Commit
+		next   int
 	}
 
-	// Now, we can reverse this topological order and read the commits in an order where
-	// we are sure to have read all the chronological ancestors when we read a commit.
+	rootCommit, err := repo.ReadCommit(rootHash)
+	if err != nil {
+		return *new(EntityT), err
+	}
+	visited[rootHash] = struct{}{}
+	stack := []*frame{{commit: rootCommit}}
+
+	for len(stack) > 0 {
+		top := stack[len(stack)-1]
+
+		if top.next < len(top.commit.Parents) {
+			parent := top.commit.Parents[top.next]
+			top.next++
+			if _, ok := visited[parent]; ok {
+				continue
+			}
+			visited[parent] = struct{}{}
+			commit, err := repo.ReadCommit(parent)
+			if err != nil {
+				return *new(EntityT), err
+			}
+			stack = append(stack, &frame{commit: commit})
+			continue
+		}
+
+		// all the parents have been emitted
+		topoOrder = append(topoOrder, top.commit)
+		stack = stack[:len(stack)-1]
+	}
+
+	// We can now read the commits in an order where we are sure to have read all the
+	// chronological ancestors when we read a commit.
 
 	// Next step is to:
 	// 1) read the operationPacks
@@ -131,9 +143,8 @@ func read[EntityT entity.Interface](def Definition, wrapper func(e *Entity) Enti
 	oppMap := make(map[repository.Hash]*operationPack)
 	var opsCount int
 
-	for i := len(BFSOrder) - 1; i >= 0; i-- {
-		commit := BFSOrder[i]
-		isFirstCommit := i == len(BFSOrder)-1
+	for i, commit := range topoOrder {
+		isFirstCommit := i == 0
 		isMerge := len(commit.Parents) > 1
 
 		// Verify DAG structure: single chronological root, so only the root
